@@ -77,6 +77,17 @@ CHECKS = {
             'Trusted: ref/onion.py, ref/bind.merged_stack. Duplicates of a unique type inside one list are not '
             'generated (pinned by the test suite, outside the merge rule).',
             'DESIGN.md section 5, C03'),
+    'C04': ('E1-product-enumerator',
+            'complete source-pair x name x base-configuration matrix constructed with the real classes, verdict from '
+            'reference conflict rules',
+            'Every pair of sources (URL, application/route/outer resources, built-ins, each phase provides of each '
+            'middleware at each level) for the name a and every reserved name, plus every misplacement of next/context, '
+            'injected into 22 valid base configurations (flat and embedded), each built through Application(list), '
+            'add() and Route.bind(), once cold and once after a valid configuration using the very same middleware '
+            'classes. The rule set is a finite matrix, so it is enumerated completely.',
+            'Trusted: ref/bind.py conflict rules. Resource/resource pairs across levels are precedence (C10), not '
+            'conflicts.',
+            'DESIGN.md section 5, C04'),
 }
 
 NOT_YET = 'check not built yet in this revision of /verif (planned: bounded exhaustive exploration, see DESIGN.md section 5)'
